@@ -64,17 +64,73 @@ GEN_SNIPPETS = [
 ]
 
 
+# unusual but parseable: things the compiler would reject (Regal only parses), names that collide, shapes whose
+# locations are synthesised by rules
+ODD_SNIPPETS = [
+    'f%d(a, b) := a + b\n\nf%d(a, b, c) := a + b + c',                       # one function, two arities
+    'f%d(a) := a\n\nf%d := 1',                                                # function and rule of one name
+    'c%d := 1\n\nc%d contains 2',                                             # complete and partial definitions
+    'c%d := 1\n\nc%d := 2',                                                   # conflicting complete definitions
+    'default d%d := 1\n\ndefault d%d := 2',
+    'count%d := count(input.xs)\n\nmax := 3\n\ninput_%d := input',
+    's%d := x if {\n\tfmt := "%s and %s"\n\tx := sprintf(fmt, [1])\n}',     # format in a variable, arity mismatch
+    's%d := x if {\n\tfmt := "%s"\n\n\n\tx := sprintf(fmt, [1, 2])\n}',
+    's%d := sprintf("%v %v %d", [1])',
+    'm%d\n\t= 100',                                                          # operator on a later line than the head
+    'm%d[k]\n\t= v if {\n\tsome k, v in input.o\n}',
+    'm%d(x)\n\t= y if y := x',
+    'u%d := {"é": "€€€€", "\\u00e9": `raw\\d€`}',
+    'w%d if {\n\tinput.a\n\tdata.b.c with input as {"a": 1} with data.x as 2\n}',
+    'e%d if {\n\tevery k, v in input.o {\n\t\tevery x in v { x > k }\n\t}\n}',
+    'n%d := -0.0e-999 + 1e999 + 0x',                                           # (does not parse: kept to count rejects)
+    'n%d := 123456789012345678901234567890 % 7',
+    'l%d := [[[[[[[[[[[[[[[[[[[[1]]]]]]]]]]]]]]]]]]]]',
+    'g%d.a["b c"].d[e] contains f if {\n\tsome e, f in input.o\n}',
+    'o%d := {1, 2} | {3} & {x | some x in input.xs} - set()',
+    'i%d if {\n\tnot input.a\n\tnot not_a\n}\n\nnot_a if false',
+    'r%d if {\n\tx := input.x\n\tx == x\n\ty = input.y\n\t[y, _] = [1, 2]\n}',
+    'b%d if { true }\n\nb%d if { false } else := true',
+    'p%d := object.get(input, ["a", "b"], null) if { regex.match("a\\\\d", input.s); regex.match(`b\\d`, "x") }',
+]
+
+
+def comment_mutation(rng, text):
+    """structure-preserving: break lines after an operator / opening bracket / comma and put end-of-line comments on
+    both halves (comments in the middle of a term are where formatters and location arithmetic go wrong)"""
+    out = []
+    k = 0
+    for line in text.split("\n"):
+        if line.lstrip().startswith(("#", "package", "import")) or '"' in line or "`" in line or rng.random() < 0.5:
+            out.append(line)
+            continue
+        cut = None
+        for sep in rng.sample([" + ", "[", ", ", " not ", "| ", ": ", " == ", "{"], 8):
+            i = line.find(sep)
+            if i > 0 and i + len(sep) < len(line):
+                cut = i + len(sep)
+                break
+        if cut is None:
+            out.append(line)
+            continue
+        k += 1
+        out.append(line[:cut].rstrip() + " # c%d" % k)
+        out.append("\t" + line[cut:].lstrip() + " # d%d" % k)
+    return "\n".join(out)
+
+
 def generated_modules(rng, n):
     out = []
     for k in range(n):
         lines = ["package gen.p%d" % k, "", "import rego.v1", ""]
         cnt = 0
         for _ in range(rng.randint(1, 8)):
-            s = rng.choice(GEN_SNIPPETS[:-1])
+            s = rng.choice(ODD_SNIPPETS) if rng.random() < 0.35 else rng.choice(GEN_SNIPPETS[:-1])
             cnt += 1
             lines.append(s.replace("%d", str(cnt)))
             lines.append("")
         text = "\n".join(lines) + "\n"
+        if rng.random() < 0.3:
+            text = comment_mutation(rng, text)
         m = rng.random()
         if m < 0.15:
             text = text.replace("\n", "\r\n")
